@@ -15,6 +15,11 @@ func init() { register("C15", checkC15) }
 
 func checkC15(c *Ctx) {
 	r := c.R
+	r.Rule("R05.10", "(shared with C05) the same message: the message is handed on as given from the adapter / the bridge to the encoder's message field and written under the message key as it is (no markup translation in JSON / logfmt)")
+	r.Rule("R05.5", "(shared with C05) groups nested: member keys are DotPrefix(key, enclosing prefix) and the prefix pushed for a value is the dotted key")
+	r.Rule("R05.1", "(shared with C05) groupness is decided per element")
+	r.Rule("R02.1", "(shared with C02) emitted once: one emission per call")
+	r.Rule("R02.2", "(shared with C02) emitted once: the sink hands the payload to exactly one Write (no retry of the whole fan-out)")
 	r.Rule("R03.1", "(shared with C03) emitted once, to the logger's destination: the routing decision function equals the documented one")
 	r.Rule("R09.1", "(shared with C09) the record's own time, message and attributes: no field of the pooled encoder is read before the current record wrote it (a zero time does not keep the previous record's)")
 	r.Rule("R02.3", "(shared with C02) each message is one record at the bridge's severity: the only payload that is not the finished buffer is the blank line of Print/Println, taken exactly for lvl == AlwaysLevel")
@@ -45,7 +50,18 @@ func checkC15(c *Ctx) {
 		c16Timestamp(c, p, m)
 		attrCopiesWhole(c, p, "R15.3")
 		c15ThruList(c, p, m)
+		c02Counts(c, p, m)
+		c02Sink(c, p, m)
 		c15HandlerModes(c, p, m)
+		everyRoundCalls(c, p, "R15.4", "handler4LogSlog", "WithAttrs", "convertAttrToField", "an attribute given to WithAttrs (an inline group has an empty key) is missing from the derived handler and all its records")
+		messageIdentity(c, p, "R05.10")
+		for _, md := range []Mode{{true, true}, {false, true}} {
+			mr15 := NewModeReach(p, m, md, sessionEntries(p), true)
+			messageEmittedAsIs(c, p, m, mr15, "R05.10")
+			if !md.JSON {
+				c05Keys(c, p, m, mr15)
+			}
+		}
 		c03Routing(c, p, m)
 		c09Pooled(c, p, m, "R09.1", feasibleModes)
 		c08Stores(c, p, m)
